@@ -185,8 +185,8 @@ REACH = {"redirect": ["moved_root"], "cat": ["merged", "rerooted", "second_root_
 HARNESSES = [
     H("redirect", h_redirect, quick=[dict(n=k, sort=s) for k in (1, 2, 3, 4, 5) for s in (True, False)], thorough=[dict(n=6, sort=s) for s in (True, False)], functions=FUNCTIONS,
       bounds="every numbering (root 0) of every tree with n<=5 (quick) / 6 (thorough) nodes, every new root, sort on/off, pairwise distinct node types, coordinates/radii/extra column symbolic reals"),
-    H("cat", h_cat, quick=[dict(n1=a, n2=b, translate=True) for a, b in ((1, 1), (2, 2), (3, 2), (2, 3), (3, 3))], thorough=[dict(n1=4, n2=3, translate=True), dict(n1=3, n2=4, translate=True), dict(n1=4, n2=4, translate=True)], functions=FUNCTIONS,
-      bounds="every pair of trees with (n1,n2) <= (3,3) quick / (4,4) thorough, every junction pair, translate=True"),
-    H("cat_no_translate", h_cat, quick=[dict(n1=a, n2=b, translate=False) for a, b in ((1, 1), (2, 2), (3, 2), (2, 3), (3, 3))], thorough=[dict(n1=4, n2=3, translate=False), dict(n1=3, n2=4, translate=False), dict(n1=4, n2=4, translate=False)], functions=FUNCTIONS,
+    H("cat", h_cat, quick=[dict(n1=a, n2=b, translate=True) for a, b in ((1, 1), (2, 2), (3, 2), (2, 3), (3, 3))], thorough=[dict(n1=4, n2=3, translate=True), dict(n1=3, n2=4, translate=True)], functions=FUNCTIONS,
+      bounds="every pair of trees with (n1,n2) <= (3,3) quick / (4,3) and (3,4) thorough, every junction pair, translate=True"),
+    H("cat_no_translate", h_cat, quick=[dict(n1=a, n2=b, translate=False) for a, b in ((1, 1), (2, 2), (3, 2), (2, 3), (3, 3))], thorough=[dict(n1=4, n2=3, translate=False), dict(n1=3, n2=4, translate=False)], functions=FUNCTIONS,
       bounds="same, translate=False; junction distance symbolic (exactly coincident, or more than 2*EPS apart)"),
 ]
